@@ -15,7 +15,8 @@ Impl(code)   == (code \div 4096) % 2 = 1
 
 CfgOf(x) ==
   [has |-> x.C.has, req |-> ToSet(x.C.req), skipAll |-> ToSet(x.C.skipAll), skip |-> ToSet(x.C.skip),
-   respIds |-> x.C.respIds, tp |-> x.C.tp, start |-> x.C.start, U |-> 0..255]
+   respIds |-> x.C.respIds, tp |-> x.C.tp, start |-> x.C.start, U |-> 0..255,
+   reset |-> IF "reset" \in DOMAIN x.C THEN x.C.reset ELSE 0]
 
 EcuOf(x) ==
   LET tabs == ToSet(x.tab)
